@@ -31,6 +31,7 @@ ID = 'C05'
 LEVEL = 'model_checking'
 CODECS = ('per', 'uper')
 C0, C1 = 20000, 4000
+KEEP = 3
 
 ASSUMPTIONS = [
     'Reference model mc/ref_per.py (X.691 clauses 10-30, own code, no asn1tools import) validated by '
@@ -353,7 +354,7 @@ def work(unit):
                     cls = errclass(c)
                     res.outcome('compile-rejected:%s:%s' % (codec, cls[:50]))
                     if not isinstance(c, (impl.asn1tools.CompileError, impl.asn1tools.ParseError)):
-                        feats = sorted(kp_c05.type_features(term, unit.env, unit.tags, unit.ext_implied))
+                        feats = sorted(kp_c05.type_features(term, unit.env, unit.tags, unit.ext_implied, numeric))
                         sig = '|'.join(['compile-raised-foreign', codec, cls, '+'.join(feats)])
                         res.failures.append(new_failure(
                             ID, 'compile-raised-foreign', sig, codec=codec, numeric=numeric, detail=cls, encoded=None,
@@ -366,7 +367,19 @@ def work(unit):
                     if r is not None:
                         kind, detail, enc = r
                         res.outcome(kind + ':' + codec)
+                        res.count('failing_cases')
                         res.failures.append(make_failure(unit, name, term, v, lab, codec, numeric, kind, detail, enc))
+    # a root cause that shows on thousands of cases: keep the KEEP smallest cases of every group of this
+    # unit (all cases are counted in stats['failing_cases'] and in the outcome classes)
+    by_sig = {}
+    for f in res.failures:
+        by_sig.setdefault(f['sig'], []).append(f)
+    kept = []
+    for sig in sorted(by_sig):
+        g = sorted(by_sig[sig], key=lambda f: (f.get('size', 0), f.get('term') or '', f.get('value') or ''))
+        res.count('failures_not_kept', max(0, len(g) - KEEP))
+        kept.extend(g[:KEEP])
+    res.failures = kept
     return res
 
 
@@ -383,7 +396,7 @@ def make_failure(unit, name, term, v, lab, codec, numeric, kind, detail, enc):
     if feats:
         sig = '|'.join([kind, codec, '+'.join(feats)])
     else:
-        sig = '|'.join([kind, codec, 'ne' if numeric else '', lab, vclass(v), dclass])
+        sig = '|'.join([kind, codec, 'ne' if numeric else '', coarse_label(lab), vclass(v)[:40], dclass])
     return new_failure(
         ID, kind, sig, codec=codec, numeric=numeric, detail=detail, features=feats,
         encoded=enc.hex()[:400] if enc is not None else None,
@@ -391,6 +404,17 @@ def make_failure(unit, name, term, v, lab, codec, numeric, kind, detail, enc):
         layer=lab.split(':')[0],
         leafkeys=None if (lab.startswith('L0:') or feats) else leafkeys(term, v, unit.env),
         **case_fields(unit, name, term, v))
+
+
+def coarse_label(lab):
+    """'L0c:seq-grp:INTEGER (0..7)' -> 'L0c:seq-grp:INTEGER' (unexplained failures are grouped per layer,
+    context and leaf kind, not per constraint)."""
+    parts = lab.split(':', 2)
+    if len(parts) == 3 and parts[0] in ('L0c',):
+        return parts[0] + ':' + parts[1] + ':' + parts[2].split(' (')[0].split(' {')[0]
+    if len(parts) >= 2 and parts[0] == 'L0':
+        return 'L0:' + lab[3:].split(' (')[0].split(' {')[0]
+    return lab
 
 
 def attribute(failures):
@@ -428,7 +452,7 @@ def run_case(failure, unit, name, term, v):
         return None
     except Exception as e:
         return ('compile-raised-foreign', errclass(e), None,
-                sorted(kp_c05.type_features(term, unit.env, unit.tags, unit.ext_implied)))
+                sorted(kp_c05.type_features(term, unit.env, unit.tags, unit.ext_implied, numeric)))
     if failure['kind'] == 'compile-raised-foreign':
         return None
     r = check_value(spec, codec, name, term, unit, v, numeric, res)
@@ -458,7 +482,8 @@ def shrink(failure):
     if '_term' in out:
         pv = to_numeric(out['_term'], out['_value'], out['_env']) if out.get('numeric') else out['_value']
         if out['kind'] == 'compile-raised-foreign':
-            out['features'] = sorted(kp_c05.type_features(out['_term'], out['_env'], out.get('tags'), out.get('ext_implied')))
+            out['features'] = sorted(kp_c05.type_features(out['_term'], out['_env'], out.get('tags'), out.get('ext_implied'),
+                                                          out.get('numeric', False)))
         else:
             out['features'] = sorted(kp_c05.features(out['_term'], pv, out['_env'], out.get('tags'), out.get('ext_implied'),
                                                      out['codec'], out.get('numeric', False)))
